@@ -128,6 +128,10 @@ static int on_term_resize(TickitTerm *term, TickitEventFlags flags, void *_info,
     tickit_window_expose(win, &damage);
   }
 
+  /* The cursor cell of the focused window may now lie outside the root window
+   * (or inside it again): have the next flush re-establish the cursor */
+  _request_restore(root);
+
   return 1;
 }
 
